@@ -1,12 +1,27 @@
 (** C06 - route/glob_cache.go as a machine of atomic actions.
 
-    type GlobCache struct { m sync.Map; l []string; h int; n int }
-    [m] is a sync.Map (every method call is one atomic action); [l], [h], [n] are plain
-    fields guarded by nothing: every read and every write of them is its own action.
+    type GlobCache struct { mu sync.Mutex; m sync.Map; l []string; h int; n int }
     Whether a pattern compiles (glob.Compile) is data supplied with the call; the compiled
     glob is identified with the pattern it was compiled from (the value stored in [m]).
 
-    Get(pattern):
+    THE CODE AS IT IS (after fix commit d9b7eff "glob cache bookkeeping is not safe for
+    concurrent lookups"), [g_step]:
+      QFast   if glb, ok := c.m.Load(pattern); ok { return glb }      -- lock-free fast path, one sync.Map call
+              glob.Compile(pattern)  (local)   err != nil -> return err
+      QCrit   c.mu.Lock(); defer c.mu.Unlock()
+              if glb, ok := c.m.Load(pattern); ok { return glb }      -- re-check
+              ... the LRU bookkeeping on l, h, n, m ...  ; return
+    The critical section is ONE atomic action: l, h and n are only touched under the mutex, so
+    the sections are totally ordered and free of data races (Go memory model); the only
+    operations of other goroutines that can fall between two statements of a section are
+    lock-free fast-path Loads of single keys, and a Load of the evicted key (miss) or of the new
+    key (miss) between the section's Delete and Store observes what it would observe after
+    resp. before the whole section.  The section's content is [gc_get]: the statements of Get
+    executed by one goroutine without interruption (it starts with the re-check Load).
+
+    THE CODE BEFORE THE FIX, [g_step_unrepaired] (kept for the refutation theorems): no mutex;
+    [m] is a sync.Map (every method call is one atomic action); [l], [h], [n] are plain fields
+    guarded by nothing: every read and every write of them is its own action.
       GLoad     if glb, ok := c.m.Load(pattern); ok { return glb }     -- hit
                 glob.Compile(pattern)  (local)   err != nil -> return err
       GCheck    if c.n < len(c.l) {
@@ -58,7 +73,7 @@ Inductive gpc :=
 Record glocal := { g_at : gpc; g_pat : str; g_ok : bool; g_r : nat; g_r2 : nat; g_old : str;
                    g_res : option (outcome str) }.
 
-Definition g_init (pat : str) (compiles : bool) : glocal :=
+Definition g_init_unrepaired (pat : str) (compiles : bool) : glocal :=
   {| g_at := GLoad; g_pat := pat; g_ok := compiles; g_r := O; g_r2 := O; g_old := []; g_res := None |}.
 
 Definition g_goto (l : glocal) (pc : gpc) : glocal :=
@@ -77,7 +92,7 @@ Definition s_l (s : gshared) (l : list str) : gshared := {| c_l := l; c_h := c_h
 Definition s_n (s : gshared) (n : nat) : gshared := {| c_l := c_l s; c_h := c_h s; c_n := n; c_m := c_m s |}.
 Definition s_h (s : gshared) (h : nat) : gshared := {| c_l := c_l s; c_h := h; c_n := c_n s; c_m := c_m s |}.
 
-Definition g_step (s : gshared) (l : glocal) : gshared * glocal :=
+Definition g_step_unrepaired (s : gshared) (l : glocal) : gshared * glocal :=
   match g_at l with
   | GLoad => match m_load (c_m s) (g_pat l) with
              | Some v => (s, g_ret l (Ok v))
@@ -113,12 +128,14 @@ Definition g_step (s : gshared) (l : glocal) : gshared * glocal :=
 Fixpoint solo (fuel : nat) (s : gshared) (l : glocal) : gshared * glocal :=
   match fuel with
   | O => (s, l)
-  | S f => let '(s', l') := g_step s l in solo f s' l'
+  | S f => let '(s', l') := g_step_unrepaired s l in solo f s' l'
   end.
 
-(* the sequential Get; [None] would mean the fuel did not suffice (excluded by gc_get_total) *)
+(* the statements of Get executed by one goroutine without interruption: the sequential Get, and the
+   content of the critical section of the repaired code; [None] would mean the fuel did not suffice
+   (excluded by gc_get_inv) *)
 Definition gc_get (s : gshared) (pat : str) (compiles : bool) : gshared * option (outcome str) :=
-  let '(s', l') := solo 11 s (g_init pat compiles) in (s', g_res l').
+  let '(s', l') := solo 11 s (g_init_unrepaired pat compiles) in (s', g_res l').
 
 (* a sequential history of calls; a panic kills only the calling goroutine, the cache lives on *)
 Fixpoint gc_history (s : gshared) (calls : list (str * bool)) : gshared * list (option (outcome str)) :=
@@ -128,4 +145,25 @@ Fixpoint gc_history (s : gshared) (calls : list (str * bool)) : gshared * list (
                     let '(s2, os) := gc_history s1 r in (s2, o :: os)
   end.
 
-Definition g_results (ts : list glocal) : list (option (outcome str)) := map g_res ts.
+Definition g_results_unrepaired (ts : list glocal) : list (option (outcome str)) := map g_res ts.
+
+(* ---------------------------------------------------------------- the code as it is: fast path + one critical section *)
+Inductive qpc := QFast | QCrit | QDone.
+Record qlocal := { q_at : qpc; q_pat : str; q_ok : bool; q_res : option (outcome str) }.
+Definition g_init (pat : str) (compiles : bool) : qlocal :=
+  {| q_at := QFast; q_pat := pat; q_ok := compiles; q_res := None |}.
+Definition q_ret (l : qlocal) (r : option (outcome str)) : qlocal :=
+  {| q_at := QDone; q_pat := q_pat l; q_ok := q_ok l; q_res := r |}.
+
+Definition g_step (s : gshared) (l : qlocal) : gshared * qlocal :=
+  match q_at l with
+  | QFast => match m_load (c_m s) (q_pat l) with
+             | Some v => (s, q_ret l (Some (Ok v)))
+             | None => if q_ok l then (s, {| q_at := QCrit; q_pat := q_pat l; q_ok := q_ok l; q_res := None |})
+                       else (s, q_ret l (Some (Err 1)))
+             end
+  | QCrit => let '(s', o) := gc_get s (q_pat l) true in (s', q_ret l o)
+  | QDone => (s, l)
+  end.
+
+Definition g_results (ts : list qlocal) : list (option (outcome str)) := map q_res ts.
